@@ -25,12 +25,17 @@ import (
 	"sync"
 	"time"
 
+	"github.com/ipfs/boxo/blockservice"
+	"github.com/ipfs/boxo/exchange"
 	blocks "github.com/ipfs/go-block-format"
 	"github.com/ipfs/go-cid"
 	"github.com/ipld/go-ipld-prime/datamodel"
 	"github.com/ipld/go-ipld-prime/linking"
 	cidlink "github.com/ipld/go-ipld-prime/linking/cid"
+	"github.com/libp2p/go-libp2p/core/host"
 	"github.com/libp2p/go-libp2p/core/peer"
+	"github.com/libp2p/go-libp2p/core/peerstore"
+	"github.com/multiformats/go-multiaddr"
 	"github.com/sourcenetwork/corekv"
 	"github.com/sourcenetwork/immutable"
 
@@ -49,6 +54,9 @@ var verifPush func(evt event.Update, pid peer.ID) error
 var verifSpawned []func()
 
 func verifSpawn(f func()) { verifSpawned = append(verifSpawned, f) }
+func verifSpawnPeer(pid peer.ID, f func(peer.ID)) {
+	verifSpawned = append(verifSpawned, func() { f(pid) })
+}
 
 // ---- redirect targets (symgo only): peer ids are kept as their text ----
 
@@ -136,6 +144,7 @@ type lEnv struct {
 	db  *lDB
 	ctx context.Context
 	pid peer.ID
+	pids []peer.ID
 
 	version, delivered [2]int
 	heads              [2]cid.Cid
@@ -327,4 +336,128 @@ func VerifH_C15_Reach() {
 	e.tick()
 	vCover("end")
 	vAssert(e.delivered[0] == 0, "reach-twin")
+}
+
+// ---- O2: routing of update events to replicators (server.replicators) ----
+
+type lExchange struct{ exchange.Interface }
+
+func (lExchange) NotifyNewBlocks(ctx context.Context, blks ...blocks.Block) error { return nil }
+
+type lBlockService struct{ blockservice.BlockService }
+
+func (lBlockService) Exchange() exchange.Interface { return lExchange{} }
+
+type lPeerstore struct{ peerstore.Peerstore }
+
+func (lPeerstore) ClearAddrs(p peer.ID)                                            {}
+func (lPeerstore) AddAddrs(p peer.ID, addrs []multiaddr.Multiaddr, ttl time.Duration) {}
+
+type lHost struct{ host.Host }
+
+func (lHost) Peerstore() peerstore.Peerstore                          { return lPeerstore{} }
+func (lHost) Connect(ctx context.Context, pi peer.AddrInfo) error     { return nil }
+
+// redirect target of blocks.NewBlock (hashes its argument; only handed to the exchange stub)
+func lNewBlock(data []byte) *blocks.BasicBlock {
+	b, _ := blocks.NewBlockWithCid(data, lFakeCid(200, 0))
+	return b
+}
+
+const lPeer2 = "12D3KooWQYdCmUjAX8k6XWRd5FYGo7boW4BnuzH44UUoQ1iesr4V"
+
+var lCols = []string{lRoot, "bafkreiverifothercollection"}
+
+func lSubset(mask int) map[string]struct{} {
+	m := map[string]struct{}{}
+	for i, c := range lCols {
+		if mask&(1<<uint(i)) != 0 {
+			m[c] = struct{}{}
+		}
+	}
+	return m
+}
+
+// the peers an update event of collection c is pushed to
+func (e *lEnv) routed(c string) [2]bool {
+	var got [2]bool
+	pids := e.pids
+	verifPush = func(evt event.Update, pid peer.ID) error {
+		vAssert(evt.CollectionID == c, "routed-event-unchanged")
+		for i := range pids {
+			if pids[i] == pid {
+				vAssert(!got[i], "pushed-once-per-replicator")
+				got[i] = true
+			}
+		}
+		return nil
+	}
+	e.p.pushLogToReplicators(event.Update{DocID: lDocIDs[0], Cid: lFakeCid(0, 1), CollectionID: c, Block: []byte{1, 2, 3}})
+	q := verifSpawned
+	verifSpawned = nil
+	for _, f := range q {
+		f()
+	}
+	verifPush = e.push
+	return got
+}
+
+// VerifH_C15_Routing — conf: calls (number of updateReplicators calls), restart (1: afterwards the node restarts:
+// a new server whose routing table is rebuilt by loadAndPublishReplicators from the persisted replicator records)
+func VerifH_C15_Routing() {
+	e := lNewEnv()
+	p2, err := peer.Decode(lPeer2)
+	if err != nil {
+		panic("peer.Decode")
+	}
+	e.pids = []peer.ID{e.pid, p2}
+	e.p.host = lHost{}
+	e.p.blockService = lBlockService{}
+	e.p.server.replicators = map[string]map[peer.ID]struct{}{}
+	ps := datastore.PeerstoreFrom(e.db.store)
+	// the replicator record of lNewEnv is not part of this scenario
+	if err := ps.Delete(e.ctx, keys.NewReplicatorKey(e.pid.String()).Bytes()); err != nil {
+		panic("delete")
+	}
+	var want [2]int // collections each peer replicates (bit mask), as last configured
+	n := vConfInt("calls")
+	for i := 0; i < n; i++ {
+		who := vChoose("peer", 2)
+		mask := vChoose("collections", 4)
+		// what SetReplicator / DeleteReplicator do: persist the record (or delete it), then update the routing table
+		key := keys.NewReplicatorKey(e.pids[who].String()).Bytes()
+		if mask == 0 {
+			if err := ps.Delete(e.ctx, key); err != nil {
+				panic("delete")
+			}
+		} else {
+			rep := client.Replicator{Info: peer.AddrInfo{ID: e.pids[who]}, Status: client.ReplicatorStatus(vChoose("status", 2))}
+			for c := range lCols {
+				if mask&(1<<uint(c)) != 0 {
+					rep.CollectionIDs = append(rep.CollectionIDs, lCols[c])
+				}
+			}
+			b, err := json.Marshal(rep)
+			if err != nil {
+				panic("json.Marshal")
+			}
+			if err := ps.Set(e.ctx, key, b); err != nil {
+				panic("set")
+			}
+		}
+		e.p.server.updateReplicators(peer.AddrInfo{ID: e.pids[who]}, lSubset(mask))
+		want[who] = mask
+	}
+	if vConfInt("restart") != 0 {
+		e.p.server = &server{peer: e.p, replicators: map[string]map[peer.ID]struct{}{}}
+		vAssert(e.p.loadAndPublishReplicators(e.ctx) == nil, "load-replicators-no-error")
+	}
+	vCover("configured")
+	for c := range lCols {
+		got := e.routed(lCols[c])
+		for who := range e.pids {
+			vObserve("routed", got[who])
+			vAssert(got[who] == (want[who]&(1<<uint(c)) != 0), "update-events-reach-exactly-the-configured-replicators")
+		}
+	}
 }
